@@ -43,3 +43,11 @@ Definition shl_spec : Prop :=
 (* C06: leading_zeros *)
 Definition leading_zeros_spec : Prop :=
   forall w n a, 0 < w -> wf w n a -> leading_zeros w a = bits w n - bitlen (uval w a).
+
+(* C01: the borrow / overflow flags of subtraction (used only for panic-freedom in debug builds) *)
+Definition U_overflowing_sub_flag_spec : Prop :=
+  forall w n a b, 0 < w -> wf w n a -> wf w n b ->
+    snd (U_overflowing_sub w a b) = (uval w a <? uval w b).
+Definition I_overflowing_sub_flag_spec : Prop :=
+  forall w n a b, 0 < w -> (0 < n)%nat -> wf w n a -> wf w n b ->
+    snd (I_overflowing_sub w a b) = negb (inS (Mod w n) (sval w a - sval w b)).
